@@ -112,6 +112,7 @@ func crashGen(r *rand.Rand, mode string, thorough bool) dbCase {
 	c.Recovery = genOpts(r)
 	c.Recovery.Async = mode == "async" && r.Intn(2) == 0
 	c.PermuteUnlink = r.Intn(2) == 0
+	c.OddName = r.Intn(8) == 0
 	return c
 }
 
@@ -536,6 +537,7 @@ func runCrashCase(c *Ctx, dc dbCase, tape *simrt.Tape, plan crashPlan) crashOutc
 
 func runCrashCaseFrom(c *Ctx, dc dbCase, tape *simrt.Tape, plan crashPlan, base *crashBase) crashOutcome {
 	out := crashOutcome{tagCounts: map[string]int{}}
+	c.oddNames = dc.OddName
 	dir := freshDir(c, "db")
 	defer os.RemoveAll(dir)
 	if base != nil {
